@@ -32,6 +32,8 @@ SCRATCH_BASE = os.environ.get("VERIF_SCRATCH", "/var/tmp")
 CACHE = os.path.join(VERIF, ".cache")          # dependency build cache made by setup (optional)
 NJOBS = int(os.environ.get("VERIF_JOBS", "14"))
 MEM_GB = int(os.environ.get("VERIF_MEM_GB", "14"))
+MAX_REPLAYS = int(os.environ.get("VERIF_MAX_REPLAYS", "3"))   # counterexamples replayed natively per check run
+CURRENT_PROP = [""]
 
 CRATE_OF = {"h263": "h263-rs", "yuv": "h263-rs-yuv", "deblock": "h263-rs-deblock"}
 CRATE_LIB = {"h263": "h263/src/lib.rs", "yuv": "yuv/src/lib.rs", "deblock": "deblock/src/lib.rs"}
@@ -46,7 +48,9 @@ class Job:
     """One solver obligation = one Kani harness instance."""
 
     def __init__(self, crate, harness, timeout=600, expect="pass", params=None, group="", unwindset=None,
-                 allow_uncovered=(), note="", cbmc_args=None, weight=1, kind="kani", smt=None):
+                 allow_uncovered=(), note="", cbmc_args=None, weight=1, kind="kani", smt=None, tagged=False, unwind_by_fn=None):
+        self.tagged = tagged          # assertions carry "[Cxx]" tags; only those of the property being checked count
+        self.unwind_by_fn = unwind_by_fn or {}   # {substring of a function name: bound} -> --unwindset for the loops of that function
         self.kind = kind              # "kani" (CBMC on the compiled code) | "smt" (integer side obligation on an oracle)
         self.smt = smt
         self.crate = crate            # "h263" | "yuv" | "deblock"
@@ -76,6 +80,7 @@ class Result:
         self.vars = 0
         self.clauses = 0
         self.witness = None
+        self.other_property_failures = []
         self.replay = None             # dict
         self.log = ""
 
@@ -170,6 +175,12 @@ class Scratch:
             if line not in src:
                 raise SystemExit("INCONCLUSIVE: state.rs no longer imports std::collections::HashMap on one line")
             src = src.replace(line, "#[cfg(not(kani))]\nuse std::collections::HashMap;\n#[cfg(kani)]\nuse self::verif_state::verif_map::HashMap;", 1)
+            # parser entry points -> script-driven producers (DESIGN.md 2.3), under Kani and under native replay
+            line = "use crate::parser::{decode_block, decode_gob, decode_macroblock, decode_picture, H263Reader};"
+            if line not in src:
+                raise SystemExit("INCONCLUSIVE: state.rs no longer imports the parser entry points on one line")
+            src = src.replace(line, "#[cfg(not(any(kani, verif_replay)))]\n" + line + "\n#[cfg(any(kani, verif_replay))]\nuse crate::parser::H263Reader;\n"
+                              "#[cfg(any(kani, verif_replay))]\nuse self::verif_state::producers::{decode_block, decode_gob, decode_macroblock, decode_picture};", 1)
         return src
 
     def new_slot(self):
@@ -295,6 +306,12 @@ def classify(job, verdict, out, timed_out, res):
         return
     hard = [f for f in res.failed if f[0] == "FAILURE"]
     undet = [f for f in res.failed if f[0] != "FAILURE"]
+    if job.tagged:
+        # harness shared by several properties: assertions carry a "[Cxx]" tag; untagged failures (panics, overflow,
+        # bounds, contract-stub preconditions) belong to C01
+        keep = [f for f in hard if relevant(f[1]) or ".unwind." in f[3] or "unwinding assertion" in f[1] or ".unsupported_construct." in f[3]]
+        res.other_property_failures = ["%s @ %s" % (f[1], short_loc(f[2])) for f in hard if f not in keep][:6]
+        hard = keep
     unsupported = [f for f in hard if ".unsupported_construct." in f[3] or "not currently supported" in f[1] or "is not supported" in f[1]]
     unwind = [f for f in hard if ".unwind." in f[3] or "unwinding assertion" in f[1]]
     if undet:
@@ -319,6 +336,13 @@ def classify(job, verdict, out, timed_out, res):
     res.failed = hard
 
 
+def relevant(desc):
+    m = re.match(r'"?\[(C\d+)\]', desc)
+    if m:
+        return m.group(1) == CURRENT_PROP[0]
+    return CURRENT_PROP[0] == "C01"
+
+
 def short_loc(loc):
     loc = re.sub(r"^.*?/repo/", "", loc)
     loc = re.sub(r"^.*?/rustlib/src/rust/library/", "std:", loc)
@@ -326,12 +350,15 @@ def short_loc(loc):
     return loc
 
 
-def parse_witness(out):
+def parse_witness(out, tagged=False):
     """concrete values printed by --concrete-playback=print (first block that belongs to a failed check, not a cover)"""
     blocks = re.split(r"Concrete playback unit test for", out)
     pick = None
     for b in blocks[1:]:
         if re.search(r"Check for `cover`", b):
+            continue
+        m = re.search(r"Check for `[^`]*`: (.*)", b)
+        if tagged and m and not relevant(m.group(1).strip().strip('"')):
             continue
         pick = b
         break
@@ -444,6 +471,15 @@ class Runner:
                 res.status, res.reason = "inconclusive", "goto pipeline failed: %s: %s" % (c[0], out[-300:])
                 res.wall = time.time() - t0
                 return res
+        uws = dict(job.unwindset or {})
+        if job.unwind_by_fn:
+            rc, lo, to, wall = run_cmd(["cbmc", "--show-loops", g], self.scratch.root, 300)
+            for lm in re.finditer(r"Loop (\S+):\n\s+file (\S+) line \d+(?: column \d+)? function (.+)", lo):
+                lid, lfile, lfn = lm.groups()
+                for sub, bound in job.unwind_by_fn.items():
+                    if sub in lfn:
+                        uws[lid] = bound
+            job.unwindset = uws
         cmd = ["cbmc"] + CBMC_FLAGS
         if m["unwind"] is not None:
             cmd += ["--unwind", str(m["unwind"])]
@@ -456,13 +492,13 @@ class Runner:
         verdict = parse_cbmc(out, res)
         classify(job, verdict, out, to, res)
         self.save_log(job.harness, out)
+        res.wall = time.time() - t0
+        if res.status == "fail" and job.expect == "pass":
+            self.witness_and_replay(job, res, g, cmd)
         try:
             os.remove(g)
         except OSError:
             pass
-        res.wall = time.time() - t0
-        if res.status == "fail" and job.expect == "pass":
-            self.witness_and_replay(job, res)
         return res
 
     def save_log(self, name, out):
@@ -471,20 +507,83 @@ class Runner:
         with open(os.path.join(d, name + ".log"), "w") as f:
             f.write(out)
 
-    def witness_and_replay(self, job, res):
-        """counterexample: let Kani extract the witness values, then re-execute natively"""
-        slot = self.slot()
+    def witness_and_replay(self, job, res, g, cmd):
+        """counterexample: ask CBMC for the trace of the first relevant failed check (no formula slicing, so that every
+        nondeterministic value is in it), take the values returned by kani::any in call order, re-execute natively"""
+        with self.scratch.lock:
+            self.replays = getattr(self, "replays", 0) + 1
+            k = self.replays
+        if k > MAX_REPLAYS:
+            res.replay = {"reproduced": None, "skipped": True}
+            return
         t0 = time.time()
-        rc, out, to, wall = run_cmd(kani_cmd(job, slot, playback=True, index=self.scratch.harness_index), self.scratch.repo,
-                                    max(900, job.timeout * 4), limit=False)
-        self.save_log(job.harness + ".playback", out)
-        w = parse_witness(out)
-        if w is None:
-            res.replay = {"reproduced": None, "why": "no witness values in Kani output"}
+        prop_name = res.failed[0][3]
+        tcmd = [c for c in cmd if c != "--slice-formula"]
+        tcmd = tcmd[:-2] + ["--property", prop_name, "--trace", "--verbosity", "4"]
+        rc, out, to, wall = run_cmd(tcmd, self.scratch.root, max(900, job.timeout * 3))
+        self.save_log(job.harness + ".trace", out[-4000000:])
+        w = extract_witness(out) if not to else None
+        if not w:
+            res.replay = {"reproduced": None, "why": "no witness values in the CBMC trace" + (" (timeout)" if to else "")}
         else:
             res.witness = w
-            res.replay = native_replay(self.scratch, job.crate, job.harness, w, slot + "-native")
+            res.replay = native_replay(self.scratch, job.crate, job.harness, w, os.path.join(self.scratch.root, "t-native-%d" % (k % 3)))
         res.wall += time.time() - t0
+
+
+STATE_RE = re.compile(r"^State \d+ (?:file (\S+) )?function (.+?) (?:line \d+ )?thread \d+$")
+VAL_RE = re.compile(r"^  goto_symex\$\$return_value\$\$\S*?(any_raw_internal|any_raw_array)\S*?(?:\[(\d+)\])?=.*\(([01 ]+)\)\s*$")
+
+
+def bits_to_bytes(bits):
+    bits = bits.replace(" ", "")
+    n = len(bits) // 8
+    v = int(bits, 2) if bits else 0
+    return [(v >> (8 * i)) & 0xFF for i in range(n)]
+
+
+def extract_witness(trace):
+    """values returned by kani::any (any_raw_internal / any_raw_array) in call order, as little-endian byte lists;
+    arrays contribute one entry per element (the layout Kani's own concrete playback uses)"""
+    vals = []
+    cur_fn = None
+    arr = None          # (n, elem_bytes, {index: bytes})
+    def flush():
+        nonlocal arr
+        if arr is not None:
+            n, eb, d = arr
+            for i in range(n):
+                vals.append(d.get(i, [0] * eb))
+            arr = None
+    for line in trace.splitlines():
+        m = STATE_RE.match(line)
+        if m:
+            fn = m.group(2)
+            if not fn.startswith("kani::any_raw_array"):
+                flush()
+            cur_fn = fn
+            continue
+        if "Violated property" in line:
+            break
+        v = VAL_RE.match(line)
+        if not v or cur_fn is None:
+            continue
+        kind, idx, bits = v.groups()
+        by = bits_to_bytes(bits)
+        if kind == "any_raw_internal" and cur_fn.startswith("kani::any_raw_internal"):
+            flush()
+            vals.append(by)
+        elif kind == "any_raw_array" and cur_fn.startswith("kani::any_raw_array") and idx is not None:
+            mm = re.search(r"any_raw_array::<.*, (\d+)>", cur_fn)
+            n = int(mm.group(1)) if mm else 0
+            i = int(idx)
+            if arr is not None and i in arr[2]:
+                flush()
+            if arr is None:
+                arr = (n, len(by), {})
+            arr[2][i] = by
+    flush()
+    return vals
 
 
 def write_witness(path, harness, vals, header=""):
@@ -561,6 +660,7 @@ def main():
     if a.warm_cache:
         return warm_cache()
     prop = a.prop.upper()
+    CURRENT_PROP[0] = prop
     seed = int(os.environ.get("VERIF_SEED", "0") or 0)
     t0 = time.time()
 
@@ -622,7 +722,7 @@ def warm_cache():
 def conclude(prop, tier, seed, spec, results, t0, scratch):
     kf = load_known_findings()
     findings = [k for k in kf.get("findings", []) if k.get("property") == prop]
-    violations, inconcl, known_hit = [], [], []
+    violations, inconcl, known_hit, extra_cex = [], [], [], []
     replay_dir = os.path.join(VERIF, "replays", prop)
     for r in results:
         j = r.job
@@ -638,6 +738,9 @@ def conclude(prop, tier, seed, spec, results, t0, scratch):
         # counterexample
         hit = [k for k in findings if finding_matches(k, prop, r)]
         rep = r.replay or {}
+        if rep.get("skipped"):
+            extra_cex.append({"harness": j.harness, "reason": r.reason})
+            continue
         if rep.get("reproduced"):
             os.makedirs(replay_dir, exist_ok=True)
             path = os.path.join(replay_dir, j.harness + ".witness")
@@ -659,6 +762,10 @@ def conclude(prop, tier, seed, spec, results, t0, scratch):
     for v in violations:
         log("VIOLATION property=%s replay=%s" % (prop, v["replay"]))
         log("    harness=%s  %s" % (v["harness"], v["reason"]))
+    for x in extra_cex:
+        log("    further counterexample (not replayed, limit %d per run): harness=%s  %s" % (MAX_REPLAYS, x["harness"], x["reason"][:200]))
+    if extra_cex and not violations and not known_hit:
+        inconcl.append({"harness": extra_cex[0]["harness"], "reason": "counterexamples found but none replayed"})
     for i in inconcl:
         log("INCONCLUSIVE harness=%s: %s" % (i["harness"], i["reason"][:400]))
     write_evidence(prop, tier, seed, spec, results, t0, len(violations), inconcl, known_hit)
